@@ -702,6 +702,7 @@ fn run_incarnation(
     ops: &[Op],
     start: usize,
     first_boot: Option<&Init>,
+    boot_no: u64,
     outs: &mut Vec<String>,
 ) -> Next {
     let det = e2e::dev_det(None, None);
@@ -711,7 +712,13 @@ fn run_incarnation(
     let ctl = e2e::new_matter(det, false);
     let buffers: MatterBuffers = MatterBuffers::new();
     let st = DevState::new(Nets::new());
-    let crypto = test_only_crypto();
+    // every incarnation draws its keys from its own stream (the test-only generator would hand
+    // out the same operational keys again after a restart and make key identities ambiguous)
+    use rand::SeedableRng;
+    let crypto = rs_matter::crypto::default_crypto(
+        rand::rngs::StdRng::seed_from_u64(0xC08_0000 + boot_no),
+        rs_matter::dm::devices::test::DAC_PRIVKEY,
+    );
     let access = dev.kv(fkv.clone());
     dev.startup(&access).unwrap();
     let net_ctl = NoopWirelessNetCtl::new(NetworkType::Wifi);
@@ -1027,9 +1034,11 @@ fn run_s(base: &Base, f: &[&str]) -> String {
     let mut outs: Vec<String> = Vec::new();
     let mut start = 0usize;
     let mut first = true;
+    let mut boot_no = 0u64;
     loop {
-        let n = run_incarnation(base, &mut cm, &blobs, &ops, start, if first { Some(&init) } else { None }, &mut outs);
+        let n = run_incarnation(base, &mut cm, &blobs, &ops, start, if first { Some(&init) } else { None }, boot_no, &mut outs);
         first = false;
+        boot_no += 1;
         match n {
             Next::Done => break,
             Next::Boot(i, b) => {
@@ -1038,7 +1047,7 @@ fn run_s(base: &Base, f: &[&str]) -> String {
                 // the state right after the boot is the observation of a restart step
                 if start >= ops.len() {
                     // boot once more just to observe
-                    let n2 = run_incarnation(base, &mut cm, &blobs, &[], 0, None, &mut outs);
+                    let n2 = run_incarnation(base, &mut cm, &blobs, &[], 0, None, boot_no, &mut outs);
                     let _ = n2;
                     break;
                 }
@@ -1053,6 +1062,23 @@ fn run_line(base: &Base, line: &str, out: &mut String) {
     match f[0] {
         "S" => {
             writeln!(out, "S {} {}", f[1], run_s(base, &f)).unwrap();
+        }
+        "F" => {
+            // F3 probe (property C07): not compared with the model
+            let g: Vec<&str> = vec!["S", f[1], "1011", "Ap:60:5,Cp:0,Rp:1,Np:77,L2:5:0,T,P,Ap:60:5,Cp:0,Rp:2,Np:78,L2:6:0"];
+            let r = run_s(base, &g);
+            let steps: Vec<&str> = r.split(';').collect();
+            let st = |i: usize| steps.get(i).map(|x| x.split('@').next().unwrap_or("")).unwrap_or("");
+            let fab_after = steps.get(5).map(|x| x.contains(" 2:")).unwrap_or(true);
+            writeln!(
+                out,
+                "F {} write_on_fabric2_before_rollback={} fabric2_after_rollback={} same_case_session_writes_new_fabric2={}",
+                f[1],
+                st(4),
+                fab_after as u8,
+                st(11)
+            )
+            .unwrap();
         }
         "H" => {
             writeln!(
@@ -1121,6 +1147,10 @@ fn branch_cases() -> Vec<(&'static str, &'static str)> {
         // AddNOC over CASE: the context moves to the new fabric
         ("0111", "A1:60:5,C1:0,R1:2,N1:77,C1:0,K1:0,L1:5:0,L2:6:0,K2:0,T"),
         ("0111", "A1:60:5,C1:0,R1:2,N1:77,L2:6:0,T"),
+        // known class: the context moves away from a fabric with staged changes
+        ("0111", "A1:60:5,L1:5:0,C1:0,R1:2,N1:77,T,X"),
+        ("0111", "A1:60:5,L1:5:0,W1:9:-,C1:0,R1:2,N1:77,K2:0,X"),
+        ("0111", "A1:60:5,C1:0,R1:2,L1:5:0,N1:77,V2"),
         // writes outside the fail-safe context are stored at once (also with a failing store)
         ("1011", "L1:5:0,Ap:60:5,L1:6:0,Cp:0,Rp:1,Np:77,L1:7:0,L2:8:0,T"),
         ("1011", "L1:5:1,X"),
@@ -1129,6 +1159,12 @@ fn branch_cases() -> Vec<(&'static str, &'static str)> {
         ("1011", "Ap:60:5,Cp:0,Rp:1,Np:71,K2:0,P,Ap:60:5,Cp:0,Rp:2,Np:72,K3:0,P,Ap:60:5,Cp:0,Rp:3,Np:73,X,P,Ap:60:5,Cp:0,Rp:3,Np:73,Ap:0:0"),
         // restart in the middle, new PASE, second round reuses the index
         ("1011", "Ap:60:5,Cp:0,Rp:1,Np:77,X,P,Ap:60:5,Rp:1,Np:78,Cp:0,Np:78,K2:0"),
+        // AddNOC repeated after it succeeded (refused by the flags; a different root cannot be staged)
+        ("1011", "Ap:60:5,Cp:0,Rp:1,Np:77,Np:78,Np:77,Rp:2,Np:79,Cp:0"),
+        ("0111", "A1:60:5,C1:0,R1:2,N1:77,N2:78,N1:79,N2:77"),
+        ("0111", "A1:60:5,C1:1,U1:88,U1:89,U1:88,C1:1"),
+        // the CASE session of a rolled back fabric is still there for the next fabric with that index (F3, C07)
+        ("1011", "Ap:60:5,Cp:0,Rp:1,Np:77,L2:5:0,T,P,Ap:60:5,Cp:0,Rp:2,Np:78,L2:6:0,Ap:0:0"),
         // revoke without fail-safe, timer without fail-safe
         ("1011", "Vp,T,V1,T"),
         ("0011", "T,X,T"),
@@ -1145,6 +1181,7 @@ fn generate(tier: &str, seed: u64) -> Vec<String> {
         id
     };
     cases.push(format!("H {}", nid()));
+    cases.push(format!("F {}", nid()));
     for (init, ops) in branch_cases() {
         cases.push(format!("S {} {} {}", nid(), init, ops));
     }
@@ -1172,15 +1209,25 @@ fn generate(tier: &str, seed: u64) -> Vec<String> {
         }
     };
     exhaustive(&prof_p, &tails_p, "1011", if thorough { 5 } else { 4 }, &mut cases, &mut nid);
-    exhaustive(&prof_c, &tails_c, "0111", if thorough { 5 } else { 3 }, &mut cases, &mut nid);
+    exhaustive(&prof_c, &tails_c, "0111", if thorough { 5 } else { 4 }, &mut cases, &mut nid);
     // random, all sessions and all operations
-    let n_rand = if thorough { 20000 } else { 1500 };
+    let n_rand = if thorough { 30000 } else { 5000 };
     for _ in 0..n_rand {
         let init = format!("{}{}{}{}", rng.below(2), rng.below(2), 1 + rng.below(2), if rng.chance(4, 5) { 1 } else { 0 });
         let len = rng.range(5, 14);
         // a commissioner that mostly follows the script, mixed with arbitrary commands
         let main = if rng.chance(2, 3) { 'p' } else { '1' };
         let mut v: Vec<String> = Vec::new();
+        // half of the sequences start with a (possibly truncated) well-formed flow
+        if rng.chance(1, 2) {
+            let flow: Vec<String> = if main == 'p' {
+                vec![format!("Ap:60:{}", rng.below(4)), "Cp:0".into(), format!("Rp:{}", 1 + rng.below(3)), format!("Np:{}", 70 + rng.below(5))]
+            } else {
+                vec![format!("A1:60:{}", rng.below(4)), "C1:1".into(), format!("U1:{}", 80 + rng.below(5))]
+            };
+            let keep = rng.range(2, flow.len() as u64) as usize;
+            v.extend(flow.into_iter().take(keep));
+        }
         let sess = |rng: &mut Rng, main: char| -> char {
             if rng.chance(3, 5) {
                 main
